@@ -14,7 +14,7 @@ namespace BdModel.Sched
 def agentStatus (c : Cfg) (started : Bool) (s : State) : SStatus :=
   if !started then .none
   else
-    let o := overall c s
+    let o := reported c s
     if (o == .none || o == .success) && s.loop != .returned then .running else o
 
 /-- the mapping of the pinned tree (before 8e42043): only `none` was lifted to `running` -/
